@@ -131,6 +131,34 @@ let stx_facts (st : Model.s_tx) =
 
 let dispatch (name : string) (args : sx list) : string =
   match name, args with
+  (* ---- C03 / C04 / C05 ---- *)
+  | "legacy_pre", [t; i; sc; ht] ->
+      opt (fun b -> "P:" ^ hex_of b) (Model.legacy_preimage (tx_of t) (nat_of i) (list_of tok_of sc) (z_of ht))
+  | "spec_legacy_pre", [t; i; sc; ht] ->
+      (match stx_of (tx_of t), Model.spec_assemble (list_of stok_of sc) with
+       | Some st, Some scb -> opt (fun b -> "P:" ^ hex_of b) (Model.spec_legacy_preimage st (nat_of i) scb (z_of ht))
+       | _, _ -> "ERR")
+  | "segwit_pre", [t; i; sc; am; ht] ->
+      opt (fun b -> "P:" ^ hex_of b) (Model.segwit_preimage Model.sha256 (tx_of t) (nat_of i) (list_of tok_of sc) (z_of am) (z_of ht))
+  | "spec_segwit_pre", [t; i; sc; am; ht] ->
+      (match stx_of (tx_of t), Model.spec_assemble (list_of stok_of sc) with
+       | Some st, Some scb -> opt (fun b -> "P:" ^ hex_of b) (Model.bip143_preimage Model.sha256 st (nat_of i) scb (z_of am) (z_of ht))
+       | _, _ -> "ERR")
+  | "taproot_digest", [t; i; spks; amts; ext; sc; ht] ->
+      opt hex_of (Model.taproot_digest Model.sha256 (tx_of t) (nat_of i) (list_of (list_of tok_of) spks) (list_of z_of amts)
+                    (z_of ext) (list_of tok_of sc) (z_of ht))
+  | "spec_taproot_digest", [t; i; spks; amts; ext; sc; ht] ->
+      let exception Bad in
+      (try
+        let st = (match stx_of (tx_of t) with Some st -> st | None -> raise Bad) in
+        let asm l = (match Model.spec_assemble (list_of stok_of l) with Some b -> b | None -> raise Bad) in
+        let spkb = list_of asm spks and am = list_of z_of amts in
+        if List.length spkb <> List.length am then raise Bad;
+        let spent = List.combine am spkb in
+        let leaf = if eq_big_int (z_of ext) unit_big_int then Some (asm sc) else None in
+        let tagb n = if eq_big_int n zero_big_int then Model.str_bytes (explode "TapLeaf") else Model.str_bytes (explode "TapSighash") in
+        opt hex_of (Model.taproot_sighash Model.sha256 tagb st spent (nat_of i) (z_of ht) leaf)
+      with Bad -> "ERR")
   (* ---- C01 / C16 ---- *)
   | "sha256", [b] -> hex_of (Model.sha256 (bytes_of b))
   | "tx_facts", [t] -> tx_facts (tx_of t)
